@@ -97,6 +97,18 @@ def _():
     seg=seg[:j]+";"+seg[j:]
     s=s[:k]+seg+s[k2:]; wr('aes/gcm_sse.asm',s)
 
+@m('C04-a5','C04','AES-192 CBC decrypt (sse) is instantiated with 10 inner rounds','one round is missing: the last-round instruction meets round key 11 of 12; the sse family is not dispatched on the test host')
+def _(): sub1('aes/cbc_dec_192_x8_sse.asm',"        AES_CBC_DEC arg1, arg2, arg3, arg4, arg5, r10, 11","        AES_CBC_DEC arg1, arg2, arg3, arg4, arg5, r10, 10")
+@m('C04-a6','C04','CBC decrypt by8 (sse): every block of a group is chained with the group\'s first ciphertext block','blocks 2..7 of each group of eight are xored with the wrong ciphertext block')
+def _(): sub1('intel-ipsec-mb/lib/include/aes_cbc_dec_by8_sse.inc',"\tpxor\t        CONCAT(xdata,i), CONCAT(xiv,j)\n%assign i (i + 1)\n%assign j (j + 1)\n","\tpxor\t        CONCAT(xdata,i), CONCAT(xiv,j)\n%assign i (i + 1)\n")
+@m('C03-a3','C03','XTS-AES-128 expanded-key encrypt (avx): round 9 of the eight-block loop loads round key 8','round key 8 is applied twice and round key 9 never, in the avx family only')
+def _(): sub1('aes/XTS_AES_128_enc_expanded_key_avx.asm',"\t; round 9\n\tvmovdqa  %%T0, [keys + 16*9]\n\tvaesenc  %%ST1, %%T0\n%if (%%num_blocks>=2)","\t; round 9\n\tvmovdqa  %%T0, [keys + 16*8]\n\tvaesenc  %%ST1, %%T0\n%if (%%num_blocks>=2)")
+@m('C02-a7','C02','gcm_sse: the 256-bit eight-block loop loads round key 12 where round 13 is due','AES-256 GCM of the sse family applies round key 12 twice')
+def _(): sub1('aes/gcm_sse.asm',"\t\tmovdqu\t%%T1, [%%GDATA + 16*13]\n\t\taesenc\t%%XMM1, %%T1","\t\tmovdqu\t%%T1, [%%GDATA + 16*12]\n\t\taesenc\t%%XMM1, %%T1")
+
+@m('C08-a2','C08','rolling hash run: the window loop stops one byte early','the scan routine is entered with i = w-1 and reads buffer[i - w] = buffer[-1], one byte in front of the caller\'s buffer')
+def _(): sub1('rolling_hash/rolling_hash2.c',"        for (i = 0; i < w; i++) {\n                if (i == buffer_length) {","        for (i = 0; i < w - 1; i++) {\n                if (i == buffer_length) {")
+
 out='/verif/seeded'
 only=set(sys.argv[1:])
 import json
